@@ -41,6 +41,7 @@ var orderExceptions = map[string]string{
 	"d2layouts/d2dagrelayout.shiftReachableDown|shifted":                  "movedObjects is used only as a set: for each element an existential test over all the others, result stored in a map",
 	"d2layouts/d2dagrelayout.shiftReachableDown|grown":                    "movedObjects is used only as a set: for each element an existential test over all the others, result stored in a map",
 	"d2layouts/d2dagrelayout.shiftReachableDown|seen":                     "UNDECIDED, excluded from the claim: the body grows ancestors and calls processQueue, which inserts into the ranged map; suspected order dependence that has not been demonstrated with an input (DESIGN.md §C25)",
+	"lib/font.(*utf8FontFile).parseSymbols|usedRunes":                     "two runes may share a glyph, but the stored rune is only folded into maxRune, which is never used; only the key set (glyph ids) reaches the output, and it is sorted",
 	"d2renderers/d2ascii/asciiroute.DrawRoute|turnDir":                     "debug logging only; output is not built in this loop",
 }
 
